@@ -6,7 +6,7 @@ HOOKS = {
     "add_only": True,
 }
 ENGINES = [
-    {"name": "verus", "path": "/verif/lib/verusrun.py", "serves_properties": ["C17"],
+    {"name": "verus", "path": "/verif/lib/verusrun.py", "serves_properties": ["C17", "C06"],
      "kind_free_text": "Verus 0.2026.09.13 (z3) on text extracted from /repo/src on every run by /verif/tools/extract (syn AST anchors, byte-copied bodies)"},
 ]
 NOTES = ("Contract-based deductive verification. exit 0 = all obligations discharged; exit 1 = VIOLATION; "
@@ -20,12 +20,18 @@ CHECKS = {
         "note": "Trusted: Verus/z3, the extractor's splices and normalisations N1/N5 on `remove`, vstd Vec/slice specs, assume_specification for <[T]>::contains and Vec::retain, SparseMatrix::new (external_body). Functions not under contract are listed in the evidence.",
     },
 }
+CHECKS["C06"] = {
+    "engine": "verus",
+    "design_ref": "DESIGN.md section 5, C06",
+    "technique": "Verus function contracts on the extracted real text of src/codes/dvbs2.rs against spec tables written from EN 302 307-1",
+    "text": "Unbounded (all 21 codes, symbolically) proof that n, n-k, k and q returned by the real functions equal Tables 5a/5b/7a/7b; see the evidence for the table-shape and construction obligations currently registered.",
+    "note": "Trusted: Verus/z3, the extractor, the standard's tables as transcribed in specs/dvbs2/std.rs.in. Not decided: 4-cycle freedom, girth, encoder acceptance, equality with a pinned matrix.",
+}
 NOT_APPLICABLE = {
     "C01": "check under construction (DESIGN.md section 5, C01): not registered until it runs green on the unchanged tree",
     "C03": "check under construction (DESIGN.md section 5, C03)",
     "C04": "check under construction (DESIGN.md section 5, C04)",
     "C05": "check under construction (DESIGN.md section 5, C05)",
-    "C06": "check under construction (DESIGN.md section 5, C06)",
     "C07": "check under construction (DESIGN.md section 5, C07)",
     "C10": "check under construction (DESIGN.md section 5, C10)",
     "C14": "check under construction (DESIGN.md section 5, C14)",
